@@ -135,9 +135,12 @@ func cmdCheck(args []string) {
 	t0 := time.Now()
 	vdir := verifDir()
 	seed, _ := strconv.Atoi(os.Getenv("VERIF_SEED"))
-	timeout := 10
+	timeout := 20
 	if *tier == "thorough" {
-		timeout = 60
+		timeout = 90
+	}
+	if v, err := strconv.Atoi(os.Getenv("RTV_TIMEOUT")); err == nil && v > 0 {
+		timeout = v
 	}
 	evPath := filepath.Join(vdir, "evidence", *prop+".json")
 	os.MkdirAll(filepath.Dir(evPath), 0755)
